@@ -711,3 +711,148 @@ Proof.
     destruct (j_exppart_start j) as [E0|(c' & t' & E' & Hc)]; rewrite Ex in *; [discriminate|]. injection E' as <- <-.
     replace (b2n c =? 46) with false by neqb. exact Ht.
 Qed.
+
+(* ================================================================================================
+   Soundness without any guard: whatever the size of the exponent or of the text, a text of the
+   quantified classes is never accepted with a value other than the integer it denotes.
+   ================================================================================================ *)
+Definition in64 (z : Z) : bool := ((minInt64 <=? z) && (z <=? maxInt64))%Z.
+
+Lemma scan_exponent_json_gen base2ok sepOk j :
+  jwf j ->
+  scan_exponent base2ok sepOk (j_exppart j) =
+  if in64 (j_expo j) then mkExp (j_expo j) 10 [] true else mkExp 0 10 [] false.
+Proof.
+  intros W. destruct (in64 (j_expo j)) eqn:R.
+  - apply scan_exponent_json; [exact W|]. unfold in64 in R. lia.
+  - unfold j_exppart, j_expo in *. destruct (j_exp j) as [[[up sg] d]|] eqn:Ee; [|discriminate].
+    destruct (wf_exp j W up sg d Ee) as (Hd & Hne & Hsg).
+    cbn [scan_exponent].
+    assert (Hc : b2n (ch (if up then 69 else 101)) = (if up then 69 else 101)) by (destruct up; apply b2n_ch; lia).
+    rewrite Hc.
+    replace (((if up then 69 else 101) =? 101) || ((if up then 69 else 101) =? 69)) with true by (destruct up; reflexivity).
+    assert (Hsplit : (match j_signchars sg ++ d with
+                      | y :: u => if b2n y =? 43 then (false, u) else if b2n y =? 45 then (true, u) else (false, j_signchars sg ++ d)
+                      | [] => (false, [])
+                      end) = ((sg =? 2), d)).
+    { unfold j_signchars. assert (sg = 0 \/ sg = 1 \/ sg = 2) as [->|[->| ->]] by lia; cbn [N.eqb Pos.eqb app].
+      - destruct d as [|y u]; [congruence|]. apply all_dec_cons in Hd. destruct Hd as [(? & _ & _ & Hy) _].
+        replace (b2n y =? 43) with false by neqb. replace (b2n y =? 45) with false by neqb. reflexivity.
+      - rewrite (b2n_ch 43) by lia. reflexivity.
+      - rewrite (b2n_ch 45) by lia. reflexivity. }
+    rewrite Hsplit. rewrite exp_loop_digits by exact Hd.
+    cbn [el_has el_acc el_rest el_inval el_prev orb].
+    replace (negb (is_nil d)) with true by (destruct d; [congruence|reflexivity]).
+    cbn [negb]. unfold in64 in R.
+    destruct (sg =? 2) eqn:E2; rewrite R; reflexivity.
+Qed.
+
+Lemma rat_json_gen j : jwf j ->
+  rat_set_string (jnum_text j) =
+  if negb (in64 (j_expo j)) then None else
+  if j_m j =? 0 then Some (0%Z, 1) else
+  if (Z.abs (j_e j) >? 1000000)%Z then None else
+  let E := j_e j in
+  let a := j_m j * (if (0 <? E)%Z then 5 ^ Z.to_N E else 1) * (if (0 <? E)%Z then 2 ^ Z.to_N E else 1) in
+  let b := (if (E <? 0)%Z then 5 ^ Z.to_N (- E) else 1) * (if (E <? 0)%Z then 2 ^ Z.to_N (- E) else 1) in
+  Some ((if j_neg j then - Z.of_N a else Z.of_N a)%Z, b).
+Proof.
+  intros W.
+  unfold rat_set_string. rewrite (jnum_text_nonempty j W), (split_slash_none _ (no_slash_json j W)).
+  rewrite (scan_sign_json j W), (scan_mantissa true j W).
+  cbn [s_ok negb s_rest s_val s_count s_base]. rewrite (scan_exponent_json_gen true true j W).
+  destruct (in64 (j_expo j)); cbn [e_ok negb e_rest e_val e_base is_nil]; [|reflexivity].
+  fold (j_m j). destruct (j_m j =? 0) eqn:E0; [reflexivity|].
+  rewrite (frac_count_d j W). cbn [N.eqb Pos.eqb].
+  replace (- Z.of_nat (length (j_fdigits j)) + j_expo j)%Z with (j_e j) by (rewrite (j_e_eq j W); lia).
+  destruct (Z.abs (j_e j) >? 1000000)%Z eqn:Eb; [reflexivity|].
+  replace ((j_e j <? -10000000) || (j_e j >? 10000000))%Z with false by lia.
+  reflexivity.
+Qed.
+
+Lemma sci_int_zero e : sci_int 0 e = Some 0%Z.
+Proof.
+  unfold sci_int. destruct (0 <=? e)%Z eqn:E; [f_equal; lia|].
+  rewrite Z.mod_0_l by (apply Z.pow_nonzero; lia). cbn [Z.eqb]. rewrite Z.div_0_l by (apply Z.pow_nonzero; lia). reflexivity.
+Qed.
+
+Lemma rat_result_sci (neg : bool) (m : N) (E : Z) :
+  let a := m * (if (0 <? E)%Z then 5 ^ Z.to_N E else 1) * (if (0 <? E)%Z then 2 ^ Z.to_N E else 1) in
+  let b := (if (E <? 0)%Z then 5 ^ Z.to_N (- E) else 1) * (if (E <? 0)%Z then 2 ^ Z.to_N (- E) else 1) in
+  let z := (if neg then - Z.of_N a else Z.of_N a)%Z in
+  (if (z mod Z.of_N b =? 0)%Z then Ok (z / Z.of_N b)%Z else Err EPrecision) =
+  match sci_int (if neg then - Z.of_N m else Z.of_N m)%Z E with Some q => Ok q | None => Err EPrecision end.
+Proof.
+  cbv zeta. unfold sci_int. destruct (0 <=? E)%Z eqn:Epos.
+  - replace (E <? 0)%Z with false by lia. rewrite N.mul_1_l.
+    assert (Ha : (Z.of_N (m * (if (0 <? E)%Z then 5 ^ Z.to_N E else 1) * (if (0 <? E)%Z then 2 ^ Z.to_N E else 1)) = Z.of_N m * 10 ^ E)%Z).
+    { destruct (0 <? E)%Z eqn:E1.
+      - rewrite <- N.mul_assoc, pow10_split, N2Z.inj_mul, N2Z.inj_pow, Z2N.id by lia. reflexivity.
+      - assert (E = 0%Z) by lia. rewrite H. cbn. lia. }
+    change (Z.of_N 1) with 1%Z. rewrite Z.mod_1_r. cbn [Z.eqb]. rewrite Z.div_1_r.
+    destruct neg; rewrite Ha; f_equal; lia.
+  - replace (0 <? E)%Z with false by lia. replace (E <? 0)%Z with true by lia.
+    rewrite !N.mul_1_r, pow10_split, N2Z.inj_pow, Z2N.id by lia.
+    change (Z.of_N 10) with 10%Z.
+    destruct neg.
+    + destruct (- Z.of_N m mod 10 ^ (- E) =? 0)%Z; reflexivity.
+    + destruct (Z.of_N m mod 10 ^ (- E) =? 0)%Z; reflexivity.
+Qed.
+
+Theorem big_json_sound j q :
+  jnum_wf j = true -> BigIntegerFromString (jnum_text j) = Ok q -> sci_int (j_mant j) (j_e j) = Some q.
+Proof.
+  intros Hwf. pose proof (jnum_wf_jwf j Hwf) as W.
+  destruct (j_fracpart j ++ j_exppart j) as [|c0 t0] eqn:Erest.
+  - (* plain integer: no guard is involved *)
+    assert (Hf : j_frac j = None) by (unfold j_fracpart in Erest; destruct (j_frac j); [discriminate|reflexivity]).
+    assert (He : j_exp j = None).
+    { unfold j_fracpart, j_exppart in Erest. rewrite Hf in Erest. destruct (j_exp j) as [[[? ?] ?]|]; [discriminate|reflexivity]. }
+    assert (Hv : dec_value (j_int j) = Some (dec_fold (j_int j) 0)).
+    { unfold dec_value. pose proof (wf_nlz j W). destruct (j_int j) eqn:Ei; [discriminate|]. rewrite <- Ei.
+      apply all_dec_digits_val. exact (wf_int j W). }
+    assert (Hje : j_e j = 0%Z) by (unfold j_e; rewrite Hf, He; reflexivity).
+    assert (Hm : j_m j = dec_fold (j_int j) 0) by (unfold j_m, j_fdigits; rewrite Hf, app_nil_r; reflexivity).
+    rewrite Hje, (j_mant_eq j W), Hm. unfold BigIntegerFromString.
+    rewrite jnum_text_eq, Erest, app_nil_r. unfold j_sign. destruct (j_neg j).
+    + rewrite (set_string_neg_dec _ _ (wf_nlz j W) Hv). intros [= <-]. unfold sci_int. cbn [Z.leb Z.compare]. f_equal. cbn. lia.
+    + cbn [app]. rewrite (set_string_dec _ _ (wf_nlz j W) Hv). intros [= <-]. unfold sci_int. cbn [Z.leb Z.compare]. f_equal. cbn. lia.
+  - unfold BigIntegerFromString.
+    rewrite (set_string_json_none j W) by (rewrite Erest; discriminate).
+    destruct (parse_float10_ok (jnum_text j)); cbn [negb]; [|discriminate].
+    rewrite (rat_json_gen j W). rewrite (j_mant_eq j W).
+    destruct (in64 (j_expo j)); cbn [negb]; [|discriminate].
+    destruct (j_m j =? 0) eqn:E0.
+    + apply N.eqb_eq in E0. rewrite E0.
+      replace (if j_neg j then (- Z.of_N 0)%Z else Z.of_N 0) with 0%Z by (destruct (j_neg j); reflexivity).
+      cbn [Z.modulo Z.div_eucl Z.eqb Z.div]. intros [= <-]. apply sci_int_zero.
+    + destruct (Z.abs (j_e j) >? 1000000)%Z; [discriminate|].
+      cbv zeta. rewrite (rat_result_sci (j_neg j) (j_m j) (j_e j)).
+      destruct (sci_int (if j_neg j then (- Z.of_N (j_m j))%Z else Z.of_N (j_m j)) (j_e j)); [intros [= <-]; reflexivity|discriminate].
+Qed.
+
+Theorem big_sound t m e q : denotes t m e -> BigIntegerFromString t = Ok q -> sci_is m e q.
+Proof.
+  intros D H. apply sci_int_spec. destruct D as [s n Hz Hv|s n Hz Hv|s n Hv|j Hwf].
+  - unfold BigIntegerFromString in H. rewrite (set_string_dec s n Hz Hv) in H. injection H as <-.
+    unfold sci_int. cbn [Z.leb Z.compare Z.pow]. rewrite Z.mul_1_r. reflexivity.
+  - unfold BigIntegerFromString in H. rewrite (set_string_neg_dec s n Hz Hv) in H. injection H as <-.
+    unfold sci_int. cbn [Z.leb Z.compare Z.pow]. rewrite Z.mul_1_r. reflexivity.
+  - rewrite (big_from_hex s n Hv) in H. injection H as <-.
+    unfold sci_int. cbn [Z.leb Z.compare Z.pow]. rewrite Z.mul_1_r. reflexivity.
+  - apply big_json_sound; assumption.
+Qed.
+
+(* accepted => the value is the denoted integer and it is in range; no guard on exponent or length *)
+Theorem parse_sound lex (ty64 : bool) t m e b q :
+  lex_law lex -> denotes t m e -> json_of t b ->
+  parse_int ty64 lex b = Ok q -> sci_is m e q /\ in_range ty64 q = true.
+Proof.
+  intros L D J H. unfold parse_int, HexInteger_UnmarshalJSON, HexUint64_UnmarshalJSON in H.
+  rewrite (unmarshal_big lex t m e b L D J) in H.
+  destruct (BigIntegerFromString t) as [z| |] eqn:E; cbn [bind] in H; try (destruct ty64; discriminate).
+  pose proof (big_sound t m e z D E) as S. unfold in_range. destruct ty64.
+  - destruct ((0 <=? z) && (z <? 2 ^ 64))%Z eqn:R; cbn [bind] in H; [|discriminate].
+    injection H as <-. rewrite Z2N.id by lia. split; assumption.
+  - destruct (z <? 0)%Z eqn:R; [discriminate|]. injection H as <-. split; [exact S|lia].
+Qed.
